@@ -485,7 +485,7 @@ func ruleP10Accessors(p *Prog, r *Report) {
 		{"Code", fld("code")},
 		{"Origin", fld("origin")},
 		{"Column", func(v ssa.Value) bool {
-			pl := polyOf(v)
+			pl := polyX(v) // (e.position + 1, or through the Position() accessor)
 			if pl.C != 1 || len(pl.Terms) != 1 {
 				return false
 			}
@@ -596,6 +596,23 @@ func ruleP10Accessors(p *Prog, r *Report) {
 		}
 		// every error rendered, in order
 		for _, ret := range returnsOf(tev) {
+			// "nothing to render" may be answered up front
+			if isNilConst(retResult(ret, 0)) {
+				empty := false
+				for _, g := range guardsOf(ret.Block()) {
+					if x, isEmpty, isG := emptyGuard(g); isG && isEmpty && strip(x) == ssa.Value(tev.Params[0]) {
+						empty = true
+					}
+				}
+				r.check(empty, rule, "json:all-errors", p.instrPos(ret), "no view only when there is no error", "errors can be left out of the JSON document (nil is returned although there are errors)")
+				continue
+			}
+			// the pre-sized spelling: make([]ErrorView, len(errs)) filled under the range index
+			if puts, src, isFill := sliceFill(retResult(ret, 0)); isFill {
+				only, _ := onlyLoopGuards(puts[0].Block())
+				r.check(len(puts) == 1 && only && strip(src) == ssa.Value(tev.Params[0]), rule, "json:all-errors", p.instrPos(ret), "one view per error, in order", "not every error is rendered exactly once in order")
+				continue
+			}
 			phis, ins := phiCycle(retResult(ret, 0))
 			ok := len(phis) > 0
 			nApp := 0
